@@ -324,7 +324,141 @@ def call(I, f, args, kwargs):
                 return _text(I, "str." + name, selfobj, *args)
         if isinstance(selfobj, set) and name in ("add",):
             raise Unsupported("set.add of symbolic value")
+    r = _bytes_int_codecs(I, f, selfobj, args, kwargs)
+    if r is not _NO:
+        return r
     raise Unsupported("native call %s with symbolic arguments" % getattr(f, "__qualname__", getattr(f, "__name__", repr(f))))
+
+
+_NO = object()
+_STRUCT_SIZES = {"B": 1, "H": 2, "I": 4, "L": 4, "Q": 8, "b": 1, "h": 2, "i": 4, "l": 4, "q": 8, "x": 1}
+
+
+def _struct_layout(fmt):
+    """[(code, size)] and byte order for standard-size struct formats ('<' '>' '!' '='); None otherwise"""
+    import re as _re
+
+    if isinstance(fmt, bytes):
+        fmt = fmt.decode()
+    if not isinstance(fmt, str) or not fmt or fmt[0] not in "<>!=":
+        return None
+    order = "little" if fmt[0] in "<=" else "big"
+    items = []
+    for cnt, code in _re.findall(r"\s*(\d*)([A-Za-z?])", fmt[1:]):
+        if code not in _STRUCT_SIZES:
+            return None
+        items.extend([(code, _STRUCT_SIZES[code])] * (int(cnt) if cnt else 1))
+    return order, items
+
+
+def _cells_of(I, buf, lo, n):
+    fr = _frame(I)
+    if isinstance(buf, (bytes, bytearray)):
+        if lo + n > len(buf):
+            return None
+        return list(buf[lo:lo + n])
+    if isinstance(buf, SBytes):
+        if lo + n > len(buf.cells):
+            return None
+        return buf.cells[lo:lo + n]
+    return None
+
+
+def _bytes_int_codecs(I, f, selfobj, args, kwargs):
+    """int.from_bytes and the struct module on symbolic values (standard sizes, unsigned codes)"""
+    import struct as _struct
+
+    name = getattr(f, "__name__", "")
+    if name == "from_bytes" and selfobj is int:
+        buf = args[0]
+        order = args[1] if len(args) > 1 else kwargs.get("byteorder", "big")
+        if kwargs.get("signed") or (len(args) > 2 and args[2]):
+            raise Unsupported("int.from_bytes signed")
+        if isinstance(buf, (SBuf, SMBuf, SZeros)):
+            n = I.ctx.concretize(V.buf_len(buf))
+            cells = [_frame(I).buf_index(buf if isinstance(buf, SBuf) else SBuf(buf.arr, 0, buf.n), i) for i in range(n)] if not isinstance(buf, SZeros) else [0] * n
+        else:
+            cells = list(buf)
+        if order == "little":
+            cells = cells[::-1]
+        return V.be_int(cells) if cells else 0
+    st = selfobj if isinstance(selfobj, _struct.Struct) else None
+    if st is None and f not in (_struct.pack, _struct.unpack, _struct.pack_into, _struct.unpack_from):
+        return _NO
+    fmt = st.format if st is not None else args[0]
+    rest = list(args if st is not None else args[1:])
+    lay = _struct_layout(fmt)
+    if lay is None:
+        raise Unsupported("struct format %r with symbolic values" % (fmt,))
+    order, items = lay
+    total = sum(sz for _, sz in items)
+
+    def pack(vals):
+        vals = list(vals)
+        if len(vals) != sum(1 for c, _ in items if c != "x"):
+            raise _struct.error("pack expected %d items for packing (got %d)" % (sum(1 for c, _ in items if c != "x"), len(vals)))
+        cells = []
+        for code, sz in items:
+            if code == "x":
+                cells.append(0)
+                continue
+            v = vals.pop(0)
+            if code.islower():
+                if is_sym(v):
+                    raise Unsupported("struct signed code with symbolic value")
+                cells.extend(v.to_bytes(sz, order, signed=True))
+                continue
+            if not I.truth(V.band(V.compare(">=", v, 0), V.compare("<", v, 1 << (8 * sz)))):
+                raise _struct.error("argument out of range")
+            c = V.be_bytes(v, sz)
+            cells.extend(c[::-1] if order == "little" else c)
+        return cells
+
+    def unpack(cells):
+        out, pos = [], 0
+        for code, sz in items:
+            chunk = cells[pos:pos + sz]
+            pos += sz
+            if code == "x":
+                continue
+            if code.islower():
+                if contains_sym(chunk):
+                    raise Unsupported("struct signed code with symbolic value")
+                out.append(int.from_bytes(bytes(chunk), order, signed=True))
+                continue
+            out.append(V.be_int(chunk[::-1] if order == "little" else chunk))
+        return tuple(out)
+
+    if name == "pack":
+        return SBytes(pack(rest), False)
+    if name == "pack_into":
+        buf, off = rest[0], rest[1]
+        if is_sym(off):
+            off = I.ctx.concretize(off)
+        cells = pack(rest[2:])
+        n = len(buf) if not isinstance(buf, (SBuf, SMBuf, SZeros)) else None
+        if n is None:
+            raise Unsupported("struct.pack_into a symbolic-length buffer")
+        if off < 0:
+            off += n
+        if off < 0 or off + total > n:
+            raise _struct.error("pack_into requires a buffer of at least %d bytes" % (off + total))
+        fr = _frame(I)
+        for i, c in enumerate(cells):
+            fr.store_subscript(buf, off + i, c)
+        return None
+    if name in ("unpack", "unpack_from"):
+        buf = rest[0]
+        off = (rest[1] if len(rest) > 1 else kwargs.get("offset", 0)) if name == "unpack_from" else 0
+        if isinstance(buf, (SBuf, SMBuf, SZeros)):
+            raise Unsupported("struct.unpack of a symbolic-length buffer")
+        cells = list(buf)
+        if name == "unpack" and len(cells) != total:
+            raise _struct.error("unpack requires a buffer of %d bytes" % total)
+        if off < 0 or off + total > len(cells):
+            raise _struct.error("unpack_from requires a buffer of at least %d bytes" % (off + total))
+        return unpack(cells[off:off + total])
+    return _NO
 
 
 def nativize(x, depth=0):
